@@ -52,11 +52,18 @@ def strip_ref(ty):
     return ty
 
 
+PTR_BITS = [64]  # width of usize/isize in the fact base being analysed (set by _ptr_width)
+
+
+def _ptr_width(config):
+    PTR_BITS[0] = 32 if str(config).endswith("32") else 64
+
+
 def int_info(ty):
     m = INT_RE.match(ty)
     if not m:
         return None
-    bits = 64 if m.group(2) == "size" else int(m.group(2))
+    bits = PTR_BITS[0] if m.group(2) == "size" else int(m.group(2))
     return (m.group(1) == "i", bits)
 
 
@@ -571,6 +578,10 @@ def check_no_operand_narrowing(ctx, res, families=None, config="all"):
                     at = _t.Atoms(b)
                 a = at.of_operand(rv["op"])
                 if a and all(x[0] == "param" and not x[2] for x in a):
+                    # a narrowing behind a range test of the same operand (`if other <= u64::MAX { other as u64 }`) is value-preserving
+                    pl_ = core.op_place(rv["op"])
+                    if pl_ is not None and _copy_root(b, pl_["local"]) in _compared_locals(b):
+                        continue
                     bad = (rv["from"], rv["to"], s["span"]["line"])
         n += 1
         if bad:
@@ -583,7 +594,10 @@ def check_no_operand_narrowing(ctx, res, families=None, config="all"):
 
 CONVERSION_TRAITS = ("core::convert::TryFrom", "core::convert::From", "num_traits::FromPrimitive", "biguint::ToBigUint", "bigint::ToBigInt")
 # reviewed: digit splitting of a wide primitive inside a loop that consumes every digit
-NARROWING_OK = {"biguint::convert::<impl core::convert::From<u128> for biguint::BigUint>::from": "pushes `n as BigDigit` then shifts n down: every digit is consumed"}
+NARROWING_OK = {
+    "biguint::convert::<impl core::convert::From<u128> for biguint::BigUint>::from": "pushes `n as BigDigit` then shifts n down: every digit is consumed",
+    "biguint::convert::<impl core::convert::From<u64> for biguint::BigUint>::from": "same loop; narrowing only with 32-bit digits",
+}
 
 
 def check_no_width_narrowing_in_conversions(ctx, res, config="all"):
